@@ -25,6 +25,7 @@ type Loaded struct {
 	repo     string
 	harness  string
 	apiPkgs  map[string]string // package dir (relative) -> package name
+	sizes    types.Sizes
 }
 
 // collectOverlay maps /verif/harness/<rel>/zz_vp_*.go onto /repo/<rel>/zz_vp_*.go and adds the
@@ -109,7 +110,7 @@ func Load(repo, harnessDir string) (*Loaded, error) {
 	}
 	prog, _ := ssautil.AllPackages(pkgs, ssa.InstantiateGenerics)
 	prog.Build()
-	ld := &Loaded{prog: prog, pkgs: pkgs, byPath: map[string]*ssa.Package{}, overlay: ov, repo: repo, harness: harnessDir, apiPkgs: apiPkgs}
+	ld := &Loaded{sizes: types.SizesFor("gc", "amd64"), prog: prog, pkgs: pkgs, byPath: map[string]*ssa.Package{}, overlay: ov, repo: repo, harness: harnessDir, apiPkgs: apiPkgs}
 	for _, p := range prog.AllPackages() {
 		ld.byPath[p.Pkg.Path()] = p
 	}
